@@ -358,10 +358,7 @@ func AdditiveOps() []AddOp {
 			return &Field{Name: fmt.Sprintf("added_m_%d", gen), Num: 903 + 10*gen, Type: "map<string, int32>", Kind: "map"}
 		}),
 		fieldOp("new-field-message", func(syntax, file string, gen int) *Field {
-			t := "Lone"
-			if tt, ok := typesOf[file]; ok {
-				t = tt.msg
-			}
+			t := payloadOf[file]
 			return &Field{Name: fmt.Sprintf("added_msg_%d", gen), Num: 904 + 10*gen, Label: singular(syntax), Type: t, Kind: "message"}
 		}),
 		{
@@ -429,6 +426,9 @@ func AdditiveOps() []AddOp {
 		},
 	}
 }
+
+// payloadOf names a message type that is visible in each base file (for new message-typed fields).
+var payloadOf = map[string]string{"a.proto": "Payload", "b.proto": "Payload2", "sub/c.proto": "Lone", "sub/d.proto": "Only"}
 
 // Surroundings of a breaking edit.
 const (
